@@ -268,6 +268,20 @@ TRUSTED_BASE = [
 ]
 
 
+def generic_replay(prop: str, mod, path: str) -> int:
+    """`./check <ID> --replay <file>`: show what the replay file records and re-run the check with the recorded seed and
+    tier (every random choice derives from the seed, so the failing input is regenerated and re-judged on the current tree)."""
+    data = json.loads(Path(path).read_text())
+    print(f"replay {path}: kind={data.get('kind')} seed={data.get('seed')} tier={data.get('tier')}")
+    if data.get("kind") == "failing-input":
+        print("  signature:", json.dumps(data.get("sig")))
+        print("  what:", (data.get("what") or "")[:600])
+    else:
+        for b in data.get("broken", [])[:5]:
+            print("  broken:", b.get("name"), json.dumps(b.get("detail"))[:400])
+    return run_check(prop, mod, data.get("tier") or "quick", int(data.get("seed") or 0))
+
+
 def run_check(prop: str, mod, tier: str, seed: int) -> int:
     setup_env()
     ctx = Ctx(prop, tier, seed)
@@ -311,6 +325,14 @@ def run_check(prop: str, mod, tier: str, seed: int) -> int:
             ctx.broke(f"theorem {t}", audit[t])
     if forb:
         ctx.broke("forbidden tokens in lean/", forb[:10])
+
+    # thorough tier: independent re-check of the compiled .olean files
+    if ok and tier == "thorough" and shutil.which("leanchecker"):
+        with BuildLock():
+            lc = _lake(["env", "leanchecker"] + list(mod.LEAN_TARGETS), timeout=1800)
+        ctx.notes.append(f"leanchecker {' '.join(mod.LEAN_TARGETS)}: exit {lc.returncode}")
+        if lc.returncode != 0:
+            ctx.broke("leanchecker", lc.stdout.decode("utf-8", "replace")[-800:])
 
     # 4/5. correspondence and search (the module drives both; it needs the Driver, which needs the build)
     driver_ok = True
